@@ -42,6 +42,7 @@ def eqv(a, b):
 
 # ------------------------------------------------------------------ axes
 DATES = ['2020-01-30', '2020-01-31', '2020-02-01', '2021-01-01']
+DATES_U = ['2020-02-01', '2020-01-30', '2021-01-01', '2020-01-31']      # not in chronological order
 
 
 def make_axis(kind, n):
@@ -66,9 +67,10 @@ def make_axis(kind, n):
         # ordinary integer labels afterwards
         labels = list(range(0, 2 * n, 2)) if kind == 'auto_step2' else list(range(n))[::-1]
         return None, RefAxis(labels)
-    if kind == 'date':
-        labels = [np.datetime64(d) for d in DATES[:n]]
-        return sf.IndexDate(DATES[:n]), RefDateAxis(labels)
+    if kind in ('date', 'date_unsorted'):
+        dd = DATES if kind == 'date' else DATES_U
+        labels = [np.datetime64(d) for d in dd[:n]]
+        return sf.IndexDate(dd[:n]), RefDateAxis(labels)
     if kind == 'ih':
         labels = [('a', 1), ('a', 2), ('b', 1), ('b', 3)][:n]
         return sf.IndexHierarchy.from_labels(labels), RefAxis(labels)
@@ -83,7 +85,7 @@ def derive(kind, n):
 def absent_labels(kind):
     if kind in ('auto_step2', 'auto_rev'):
         return [1 if kind == 'auto_step2' else 77, -1]
-    return {'str': ['zz'], 'int': [5, 1], 'obj': ['zz', 7], 'auto': [-1, 99], 'date': [np.datetime64('2020-01-15')], 'ih': [('a', 9), ('z', 1)]}[kind]
+    return {'str': ['zz'], 'int': [5, 1], 'obj': ['zz', 7], 'auto': [-1, 99], 'date': [np.datetime64('2020-01-15')], 'date_unsorted': [np.datetime64('2020-01-15')], 'ih': [('a', 9), ('z', 1)]}[kind]
 
 
 # ------------------------------------------------------------------ keys
@@ -129,7 +131,7 @@ def label_keys(kind, ref, full=True):
                     for q, x in enumerate(ix):
                         a[q] = x
                     ix = a
-                keys.append(('bool-series-permuted', sf.Series([bits[i] for i in perm], index=ix if kind != 'date' else sf.IndexDate(ix))))
+                keys.append(('bool-series-permuted', sf.Series([bits[i] for i in perm], index=ix if not kind.startswith('date') else sf.IndexDate(ix))))
                 if n > 1:
                     ix2 = [labels[i] for i in range(n - 1)]
                     if kind == 'obj':
@@ -137,7 +139,7 @@ def label_keys(kind, ref, full=True):
                         for q, x in enumerate(ix2):
                             a[q] = x
                         ix2 = a
-                    keys.append(('bool-series-partial', sf.Series(list(bits[:n - 1]), index=ix2 if kind != 'date' else sf.IndexDate(ix2))))
+                    keys.append(('bool-series-partial', sf.Series(list(bits[:n - 1]), index=ix2 if not kind.startswith('date') else sf.IndexDate(ix2))))
         for t in itertools.permutations(range(n), min(n, 2)):
             sub = [labels[i] for i in t]
             if kind == 'obj':
@@ -145,13 +147,13 @@ def label_keys(kind, ref, full=True):
                 for q, x in enumerate(sub):
                     a[q] = x
                 keys.append(('index-key', sf.Index(a)))
-            elif kind == 'date':
+            elif kind.startswith('date'):
                 keys.append(('index-key', sf.IndexDate(sub)))
             else:
                 keys.append(('index-key', sf.Index(sub)))
     for kname, k in pos_keys(n, full=False)[:: (1 if full else 3)]:
         keys.append(('ILoc-' + kname, sf.ILoc[k]))
-    if kind == 'date':
+    if kind.startswith('date'):
         extra = ['2020-01-30', '2020-01', '2020-02', '2020', '2021', '2019', '2020-03', datetime.date(2020, 1, 31), datetime.date(2020, 1, 15),
                  np.datetime64('2020-01'), np.datetime64('2020'), np.datetime64('2020-02-01')]
         keys += [('date-key', k) for k in extra]
@@ -198,7 +200,7 @@ def nontrivial_sel(sel, n):
 
 
 # ------------------------------------------------------------------ cases
-SERIES_KINDS = ('str', 'int', 'obj', 'auto', 'date', 'ih', 'auto_step2', 'auto_rev')
+SERIES_KINDS = ('str', 'int', 'obj', 'auto', 'date', 'date_unsorted', 'ih', 'auto_step2', 'auto_rev')
 
 
 def scope(tier):
@@ -209,12 +211,12 @@ def cases(tier):
     sc = scope(tier)
     for kind in SERIES_KINDS:
         for n in sc['n_series']:
-            if kind in ('date', 'ih') and n == 0:
+            if kind in ('date', 'date_unsorted', 'ih') and n == 0:
                 continue
             for route in ('iloc', 'loc', 'getitem'):
                 yield ('series', kind, n, route)
     for (nr, nc) in sc['frame_shapes']:
-        for rk, ck in (('str', 'str'), ('auto', 'auto'), ('int', 'obj'), ('date', 'str'), ('ih', 'str'), ('str', 'ih')):
+        for rk, ck in (('str', 'str'), ('auto', 'auto'), ('int', 'obj'), ('date', 'str'), ('date_unsorted', 'str'), ('str', 'date_unsorted'), ('ih', 'str'), ('str', 'ih')):
             for li in layout_specs(nc, tier):
                 yield ('frame1', rk, ck, nr, nc, li)
                 for sh in range(4):
